@@ -7,6 +7,8 @@
 //! BFS over {client command on any node, gossip round of any node, delivery of any in-flight message (any order),
 //! one re-delivery per message}; oracle: in every state a node serves what its replication state says; once every
 //! outbox is drained and every message delivered, all replicas responsible for a key read it alike.
+pub mod sim;
+
 use redis_sim::production::{GossipActor, ReplicatedShardedState};
 use redis_sim::replication::lattice::ReplicaId;
 use redis_sim::replication::state::{ReplicatedValue, ReplicationDelta};
